@@ -281,28 +281,24 @@ def Env.validate (env : Env) (cfg : Cfg) (s : Session) : Bool :=
 def validateSessionStep (cfg : Cfg) (env : Env) (s : Session) : Bool :=
   !s.isExpired env.now && env.validate cfg s
 
-/-- `refreshSessionIfNeeded` after the lock has been obtained and the session reloaded as `s`. -/
+/-- `refreshSession`: the session after the provider call and whether `store.Save` is attempted.
+    A refresh error is only logged; `ErrNotImplemented` counts as refreshed. -/
+def refreshOutcome (env : Env) (s : Session) : Session × Bool :=
+  match env.refresh s with
+  | .refreshed s' => ({ s' with createdAt := some env.now }, true)
+  | .notImplemented => ({ s with createdAt := some env.now }, true)
+  | .notRefreshed => (s, false)
+  | .err => (s, false)
+
+/-- `refreshSessionIfNeeded` after the lock has been obtained and the session reloaded as `s`.
+    A failed Save is only logged; `validateSession` decides (success or fail). -/
 def refreshUnderLock (cfg : Cfg) (env : Env) (s : Session) : StoredOut :=
   if !needsRefresh cfg env.now s then { session := some s, isErr := false, saved := none, refreshCalls := 0 }
   else
-    match env.refresh s with
-    | .refreshed s' =>
-      let s'' := { s' with createdAt := some env.now }
-      -- a failed Save is only logged; validation decides
-      if validateSessionStep cfg env s'' then
-        { session := some s'', isErr := false, saved := if env.saveOK then some s'' else none, refreshCalls := 1 }
-      else { session := none, isErr := true, saved := if env.saveOK then some s'' else none, refreshCalls := 1 }
-    | .notImplemented =>
-      let s'' := { s with createdAt := some env.now }
-      if validateSessionStep cfg env s'' then
-        { session := some s'', isErr := false, saved := if env.saveOK then some s'' else none, refreshCalls := 1 }
-      else { session := none, isErr := true, saved := if env.saveOK then some s'' else none, refreshCalls := 1 }
-    | .notRefreshed =>
-      if validateSessionStep cfg env s then { session := some s, isErr := false, saved := none, refreshCalls := 1 }
-      else { session := none, isErr := true, saved := none, refreshCalls := 1 }
-    | .err =>
-      if validateSessionStep cfg env s then { session := some s, isErr := false, saved := none, refreshCalls := 1 }
-      else { session := none, isErr := true, saved := none, refreshCalls := 1 }
+    let o := refreshOutcome env s
+    let ok := validateSessionStep cfg env o.1
+    { session := if ok then some o.1 else none, isErr := !ok,
+      saved := if o.2 && env.saveOK then some o.1 else none, refreshCalls := 1 }
 
 def getValidatedSession (cfg : Cfg) (env : Env) : StoredOut :=
   match env.load1 with
@@ -325,19 +321,21 @@ structure ChainOut where
   refreshCalls : Nat
   deriving DecidableEq, Repr
 
+/-- the stored-session loader's contribution (incl. its Set-Cookie side effects) -/
+def storedChainOut (cfg : Cfg) (env : Env) : ChainOut :=
+  let o := getValidatedSession cfg env
+  { session := o.session, source := if o.session.isSome then 3 else 0,
+    cookies := (match o.saved with | some s => [CookieOp.setSession s] | none => []) ++
+               (if o.isErr then [CookieOp.clearSession] else []),
+    refreshCalls := o.refreshCalls }
+
 def sessionChain (cfg : Cfg) (env : Env) (r : Req) : ChainOut :=
-  let b := if cfg.jwtEnabled then env.bearer r else none
-  match b with
+  match (if cfg.jwtEnabled then env.bearer r else none) with
   | some s => { session := some s, source := 1, cookies := [], refreshCalls := 0 }
   | none =>
-    let ba := if cfg.basicEnabled then env.basic r else none
-    match ba with
+    match (if cfg.basicEnabled then env.basic r else none) with
     | some s => { session := some s, source := 2, cookies := [], refreshCalls := 0 }
-    | none =>
-      let o := getValidatedSession cfg env
-      let saveCk := match o.saved with | some s => [CookieOp.setSession s] | none => []
-      let clearCk := if o.isErr then [CookieOp.clearSession] else []
-      { session := o.session, source := if o.session.isSome then 3 else 0, cookies := saveCk ++ clearCk, refreshCalls := o.refreshCalls }
+    | none => storedChainOut cfg env
 
 /-! ### authorisation (getAuthenticatedSession) -/
 
